@@ -35,7 +35,9 @@ func (q Query) Execute(j *journal.Builder, r *Report) *journal.Processor {
 				ss := q.Universe.Locate(com)
 				level, suffix, ok := q.Mapping.Level(strings.Join(ss, ":"))
 				if ok && level < len(ss)-suffix {
-					ss = append(ss[:level], ss[len(ss)-suffix:]...)
+					shortened := make([]string, 0, level+suffix)
+					shortened = append(shortened, ss[:level]...)
+					ss = append(shortened, ss[len(ss)-suffix:]...)
 				}
 				r.Add(ss, d.Date, v/total)
 			}
